@@ -26,6 +26,7 @@ import (
 	"github.com/honeytrap/honeytrap/pushers"
 	"github.com/honeytrap/honeytrap/server"
 	"github.com/honeytrap/honeytrap/services/ftp"
+	"github.com/honeytrap/honeytrap/services/ipp"
 	"github.com/honeytrap/honeytrap/services/smtp"
 
 	"htsim/simnet"
@@ -190,6 +191,8 @@ type World struct {
 	StepCheck func(w *World) string
 	Abort     string
 	HT        *server.Honeytrap
+	// Custom executes engine-specific op kinds (emit, frame, ...)
+	Custom func(w *World, actor int, op Op)
 }
 
 var dataDir string // per-process data dir (badger opened once, outside any bubble)
@@ -200,6 +203,7 @@ func prepareProcess(t *testing.T) {
 		return
 	}
 	installSeams()
+	ipp.VerifResetModel()
 	tmpl := os.Getenv("VERIF_DATADIR_TEMPLATE")
 	dir, err := os.MkdirTemp("", "htsim-data-")
 	if err != nil {
@@ -260,6 +264,7 @@ func (w *World) bootServer(cfg string) error {
 	// process-global registry of SMTP message handlers: every constructed smtp service adds itself;
 	// services of earlier (dead) bubbles must not stay registered
 	smtp.DefaultServeMux = smtp.NewServeMux()
+	ipp.VerifResetModel()
 	dir := w.T.TempDir()
 	cfg = strings.ReplaceAll(cfg, "@TMP@", dir)
 	path := filepath.Join(dir, "config.toml")
@@ -533,7 +538,11 @@ func (w *World) microStep(i int, c *cursor) {
 		w.tracef("a%d unstall", i)
 	case "nop":
 	default:
-		panic("unknown op kind " + op.K)
+		if w.Custom == nil {
+			panic("unknown op kind " + op.K)
+		}
+		w.Custom(w, i, op)
+		w.tracef("a%d %s", i, op.K)
 	}
 	if advance {
 		co.OpDoneStep[c.op] = w.step
